@@ -42,6 +42,11 @@ const (
 	tString  = "string"
 	tCode    = "code"
 	tSub     = "sub"
+	tMidiEv  = "midiev"
+	tFloat   = "float64"
+	tAnalog  = "analog"
+	tAKind   = "akind"
+	tAbsInfo = "absinfo"
 )
 
 type glFunc struct {
@@ -62,8 +67,11 @@ type glCtx struct {
 	actions map[string]string // Go const name -> Lean Action constructor
 	consts  map[string]string // package level integer constants (EV_KEY_PRESS …)
 	tmp     int
-	pre     []string // hoisted statements of the expression being translated (calls with side effects)
-	brk     []string // names of the break flags of the enclosing switches
+	order   []string          // top-level locals of the current function in declaration order (Go names)
+	scopes  []map[string]bool // names declared in each open block
+	rename  map[string]string // Go local -> Lean name (shadowing locals get fresh names)
+	pre     []string          // hoisted statements of the expression being translated (calls with side effects)
+	brk     []string          // names of the break flags of the enclosing switches
 	brkUsed map[string]bool
 }
 
@@ -94,9 +102,9 @@ var glMidiConsts = map[string]string{
 func (c *glCtx) wrap(t, e string) string {
 	switch t {
 	case tInt:
-		return "wrapInt (" + e + ")"
+		return "(wrapInt (" + e + "))"
 	case tU8:
-		return "wrapU8 (" + e + ")"
+		return "(wrapU8 (" + e + "))"
 	}
 	glfail("wrap of type %s", t)
 	return ""
@@ -129,6 +137,12 @@ func (c *glCtx) expr(e ast.Expr) (string, string) {
 		if x.Kind == token.INT {
 			return "(" + x.Value + " : Int)", tUntyped
 		}
+		if x.Kind == token.FLOAT {
+			return glFloatLit(x.Value), tFloat
+		}
+		if x.Kind == token.STRING && x.Value == `""` {
+			return `("" : Sub)`, tSub
+		}
 		glfail("literal %s", x.Value)
 	case *ast.Ident:
 		switch x.Name {
@@ -136,7 +150,7 @@ func (c *glCtx) expr(e ast.Expr) (string, string) {
 			return x.Name, tBool
 		}
 		if t, ok := c.locals[x.Name]; ok {
-			return x.Name, t
+			return c.lname(x.Name), t
 		}
 		if v, ok := c.consts[x.Name]; ok {
 			return "(" + v + " : Int)", tUntyped
@@ -165,15 +179,59 @@ func (c *glCtx) expr(e ast.Expr) (string, string) {
 					return "(" + m + " : Int)", tU8
 				}
 			}
-			if id.Name == "evdev" && x.Sel.Name == "EV_KEY" {
-				return "(1 : Int)", tUntyped
+			if id.Name == "evdev" {
+				if v, ok := map[string]string{"EV_SYN": "0", "EV_KEY": "1", "EV_ABS": "3"}[x.Sel.Name]; ok {
+					return "(" + v + " : Int)", tUntyped
+				}
+			}
+			if id.Name == "config" {
+				if k, ok := map[string]string{"AnalogCC": "cc", "AnalogPitchBend": "pitchBend", "AnalogKeySim": "key", "AnalogActionSim": "action"}[x.Sel.Name]; ok {
+					return "AKind." + k, tAKind
+				}
+			}
+			if t, ok := c.locals[id.Name]; ok && t == tAnalog {
+				n := c.lname(id.Name)
+				switch x.Sel.Name {
+				case "MappingType":
+					return n + ".kind", tAKind
+				case "DeadzoneAtCenter":
+					return n + ".dzCenter", tBool
+				case "FlipAxis":
+					return n + ".flip", tBool
+				case "Bidirectional":
+					return n + ".bidir", tBool
+				case "CC":
+					return "(" + n + ".cc : Int)", tU8
+				case "CCNeg":
+					return "(" + n + ".ccNeg : Int)", tU8
+				case "Note":
+					return "(" + n + ".note : Int)", tU8
+				case "NoteNeg":
+					return "(" + n + ".noteNeg : Int)", tU8
+				case "ChannelOffset":
+					return "(" + n + ".chOff : Int)", tU8
+				case "ChannelOffsetNeg":
+					return "(" + n + ".chOffNeg : Int)", tU8
+				case "Action":
+					return n + ".act", tAction
+				case "ActionNeg":
+					return n + ".actNeg", tAction
+				}
+			}
+			if t, ok := c.locals[id.Name]; ok && t == tAbsInfo {
+				switch x.Sel.Name {
+				case "Minimum":
+					return c.lname(id.Name) + ".1", tInt
+				case "Maximum":
+					return c.lname(id.Name) + ".2", tInt
+				}
 			}
 			if t, ok := c.locals[id.Name]; ok && t == tKey {
 				switch x.Sel.Name {
 				case "Note":
-					return "(" + id.Name + ".note : Int)", tU8
+					return "(" + c.lname(id.Name) + ".note : Int)", tU8
 				case "ChannelOffset":
-					return "(" + id.Name + ".chOff : Int)", tU8
+					return "(" + c.lname(id.Name) + ".chOff : Int)", tU8
 				}
 			}
 		}
@@ -192,6 +250,9 @@ func (c *glCtx) expr(e ast.Expr) (string, string) {
 		if c.isEvSel(x, "Source", "Name") {
 			return "ev_sub", tSub
 		}
+		if isSel(x, "d", "ccLearning") {
+			return "d.learning", tBool
+		}
 		glfail("selector %s", types.ExprString(x))
 	case *ast.UnaryExpr:
 		if x.Op == token.NOT {
@@ -201,12 +262,44 @@ func (c *glCtx) expr(e ast.Expr) (string, string) {
 			}
 			return "(!" + s + ")", tBool
 		}
+		if x.Op == token.SUB {
+			s, t := c.expr(x.X)
+			if t == tFloat {
+				return "(-" + s + ")", tFloat
+			}
+			if t == tUntyped {
+				return "(-" + s + ")", tUntyped
+			}
+			glfail("unary minus of %s", t)
+		}
 		glfail("unary %s", x.Op)
 	case *ast.BinaryExpr:
 		return c.binary(x)
 	case *ast.CallExpr:
 		return c.call(x)
 	case *ast.IndexExpr:
+		if isSel(x.X, "d", "ccZeroed") {
+			return "(d.ccZeroed.contains (" + c.asU8(x.Index) + ").toNat)", tBool
+		}
+		if in, ok := x.X.(*ast.IndexExpr); ok && isSel(in.X, "d", "lastAnalogValue") {
+			sub, t1 := c.expr(in.Index)
+			code, t2 := c.expr(x.Index)
+			if t1 != tSub || t2 != tCode {
+				glfail("lastAnalogValue index types %s %s", t1, t2)
+			}
+			return "(d.lastAnaGet " + sub + " " + code + ")", tFloat
+		}
+		if in, ok := x.X.(*ast.IndexExpr); ok && isSel(in.X, "d", "InputDevice", "AbsInfos") {
+			if call, ok := in.Index.(*ast.CallExpr); ok && len(call.Args) == 0 {
+				if sel, ok := call.Fun.(*ast.SelectorExpr); ok && sel.Sel.Name == "Event" && c.isEvSel(sel.X, "Source", "DeviceInfo") {
+					code, t2 := c.expr(x.Index)
+					if t2 != tCode {
+						glfail("AbsInfos index type %s", t2)
+					}
+					return "(d.absInfo ev_node " + code + ")", tAbsInfo
+				}
+			}
+		}
 		// d.actionTracker[config.X]
 		if isSel(x.X, "d", "actionTracker") {
 			a, t := c.expr(x.Index)
@@ -224,14 +317,27 @@ func (c *glCtx) expr(e ast.Expr) (string, string) {
 			}
 			return "(d.count " + ch + " " + n + ")", tInt
 		}
+		// ev[2]
+		if id, ok := x.X.(*ast.Ident); ok && c.locals[id.Name] == tMidiEv {
+			if lit, ok := x.Index.(*ast.BasicLit); ok {
+				switch lit.Value {
+				case "0":
+					return id.Name + "_a", tU8
+				case "1":
+					return id.Name + "_b", tU8
+				case "2":
+					return id.Name + "_c", tU8
+				}
+			}
+		}
 		// pair[0], pair[1]
 		if id, ok := x.X.(*ast.Ident); ok && c.locals[id.Name] == tPair {
 			if lit, ok := x.Index.(*ast.BasicLit); ok {
 				switch lit.Value {
 				case "0":
-					return "(" + id.Name + ".1 : Int)", tU8
+					return "(" + c.lname(id.Name) + ".1 : Int)", tU8
 				case "1":
-					return "(" + id.Name + ".2 : Int)", tU8
+					return "(" + c.lname(id.Name) + ".2 : Int)", tU8
 				}
 			}
 		}
@@ -255,6 +361,32 @@ func (c *glCtx) unify(t1, t2 string) string {
 func (c *glCtx) binary(x *ast.BinaryExpr) (string, string) {
 	l, tl := c.expr(x.X)
 	r, tr := c.expr(x.Y)
+	// an untyped constant next to a float64 operand is a float64 constant
+	if tl == tFloat && tr == tUntyped {
+		r, tr = "("+r+" : Rat)", tFloat
+	}
+	if tr == tFloat && tl == tUntyped {
+		l, tl = "("+l+" : Rat)", tFloat
+	}
+	if tl == tFloat && tr == tFloat {
+		switch x.Op {
+		case token.ADD:
+			return "(fadd " + l + " " + r + ")", tFloat
+		case token.SUB:
+			return "(fsub " + l + " " + r + ")", tFloat
+		case token.MUL:
+			return "(fmul " + l + " " + r + ")", tFloat
+		case token.QUO:
+			return "(fdiv " + l + " " + r + ")", tFloat
+		case token.EQL:
+			return "(" + l + " == " + r + ")", tBool
+		case token.NEQ:
+			return "(" + l + " != " + r + ")", tBool
+		case token.LSS, token.GTR, token.LEQ, token.GEQ:
+			return "(decide (" + l + " " + x.Op.String() + " " + r + "))", tBool
+		}
+		glfail("float operator %s", x.Op)
+	}
 	switch x.Op {
 	case token.LAND, token.LOR:
 		if tl != tBool || tr != tBool {
@@ -315,11 +447,27 @@ func (c *glCtx) asU8(e ast.Expr) string {
 func (c *glCtx) call(x *ast.CallExpr) (string, string) {
 	if id, ok := x.Fun.(*ast.Ident); ok {
 		switch id.Name {
+		case "float64":
+			if len(x.Args) != 1 {
+				glfail("conversion arity")
+			}
+			s, t := c.expr(x.Args[0])
+			if t != tInt && t != tU8 && t != tUntyped {
+				glfail("float64 of %s", t)
+			}
+			// exact for |x| < 2^53 (evdev values are int32)
+			return "((" + s + " : Int) : Rat)", tFloat
 		case "int", "uint8", "byte":
 			if len(x.Args) != 1 {
 				glfail("conversion arity")
 			}
 			s, t := c.expr(x.Args[0])
+			if t == tFloat {
+				if id.Name != "int" {
+					glfail("%s of a float64", id.Name)
+				}
+				return "(ftrunc " + s + ")", tInt
+			}
 			if t != tInt && t != tU8 && t != tUntyped {
 				glfail("conversion of %s", t)
 			}
@@ -328,6 +476,9 @@ func (c *glCtx) call(x *ast.CallExpr) (string, string) {
 			}
 			return c.wrap(tU8, s), tU8
 		case "len":
+			if id, ok := x.Args[0].(*ast.Ident); ok && c.locals[id.Name] == tMidiEv {
+				return "(3 : Int)", tInt // MIDI-input messages are modelled as three bytes
+			}
 			if isSel(x.Args[0], "d", "actionTracker") {
 				return "(d.actTr.length : Int)", tInt
 			}
@@ -340,6 +491,44 @@ func (c *glCtx) call(x *ast.CallExpr) (string, string) {
 		}
 	}
 	if s, ok := x.Fun.(*ast.SelectorExpr); ok {
+		if id, ok := s.X.(*ast.Ident); ok && c.locals[id.Name] == tMidiEv && len(x.Args) == 0 {
+			switch s.Sel.Name {
+			case "Type":
+				return "(evType " + id.Name + "_a)", tU8
+			case "Channel":
+				return "(evChannel " + id.Name + "_a)", tU8
+			case "Note":
+				return id.Name + "_b", tU8
+			}
+		}
+		if id, ok := s.X.(*ast.Ident); ok && id.Name == "math" && s.Sel.Name == "Abs" && len(x.Args) == 1 {
+			a, t := c.expr(x.Args[0])
+			if t != tFloat {
+				glfail("math.Abs of %s", t)
+			}
+			return "(rabs " + a + ")", tFloat
+		}
+		if id, ok := s.X.(*ast.Ident); ok && id.Name == "fmt" && s.Sel.Name == "Sprintf" && len(x.Args) == 2 {
+			// the identifiers of the analog note tracker: "%d" / "%d_neg" of the axis code
+			if lit, ok := x.Args[0].(*ast.BasicLit); ok {
+				k, t := c.expr(x.Args[1])
+				if t == tCode {
+					switch lit.Value {
+					case `"%d"`:
+						return "(" + k + ", false)", tString
+					case `"%d_neg"`:
+						return "(" + k + ", true)", tString
+					}
+				}
+			}
+		}
+		if id, ok := s.X.(*ast.Ident); ok && id.Name == "midi" && s.Sel.Name == "PitchBendEvent" && len(x.Args) == 2 {
+			v, t := c.expr(x.Args[1])
+			if t != tFloat {
+				glfail("PitchBendEvent value of %s", t)
+			}
+			return fmt.Sprintf("(pbEv %s %s)", c.asU8(x.Args[0]), v), tEvent
+		}
 		if id, ok := s.X.(*ast.Ident); ok && id.Name == "midi" {
 			switch s.Sel.Name {
 			case "NoteEvent":
@@ -384,8 +573,20 @@ func (o *glOut) line(format string, a ...interface{}) {
 }
 
 func isLogOnlyIf(s *ast.IfStmt) bool {
-	u, ok := s.Cond.(*ast.UnaryExpr)
-	if !ok || u.Op != token.NOT || !isSel(u.X, "d", "noLogs") || s.Else != nil || s.Init != nil {
+	if s.Else != nil || s.Init != nil || len(s.Body.List) == 0 {
+		return false
+	}
+	// the condition must be free of side effects: no calls other than len()
+	pure := true
+	ast.Inspect(s.Cond, func(n ast.Node) bool {
+		if call, ok := n.(*ast.CallExpr); ok {
+			if id, ok := call.Fun.(*ast.Ident); !ok || id.Name != "len" {
+				pure = false
+			}
+		}
+		return true
+	})
+	if !pure {
 		return false
 	}
 	for _, st := range s.Body.List {
@@ -472,7 +673,12 @@ func (c *glCtx) block(o *glOut, list []ast.Stmt, sw int) {
 	for k, v := range c.locals {
 		saved[k] = v
 	}
-	defer func() { c.locals = saved }()
+	savedRen := map[string]string{}
+	for k, v := range c.rename {
+		savedRen[k] = v
+	}
+	c.scopes = append(c.scopes, map[string]bool{})
+	defer func() { c.locals = saved; c.rename = savedRen; c.scopes = c.scopes[:len(c.scopes)-1] }()
 	if len(list) == 0 {
 		o.line("pure ()")
 		return
@@ -553,7 +759,7 @@ func (c *glCtx) flushPre(o *glOut) {
 	c.pre = nil
 }
 
-func (c *glCtx) evArgs() string { return "ev_sub ev_code ev_value ev_type" }
+func (c *glCtx) evArgs() string { return "ev_sub ev_node ev_code ev_value ev_type" }
 
 // callStmt: d.Method(args…) as a statement
 func (c *glCtx) methodCall(o *glOut, call *ast.CallExpr, resultVar string) bool {
@@ -575,8 +781,14 @@ func (c *glCtx) methodCall(o *glOut, call *ast.CallExpr, resultVar string) bool 
 	var args []string
 	for i, a := range call.Args {
 		if f.ptypes[i] == "ev" {
+			if u, ok := a.(*ast.UnaryExpr); ok && u.Op == token.AND {
+				if cl, ok := u.X.(*ast.CompositeLit); ok && types.ExprString(cl.Type) == "input.InputEvent" {
+					args = append(args, c.eventLiteral(cl))
+					continue
+				}
+			}
 			aid, ok := a.(*ast.Ident)
-			if !ok || aid.Name != c.cur.evParam {
+			if !ok || aid.Name != c.cur.evParam || c.cur.evParam == "" {
 				glfail("call of %s: event argument", f.name)
 			}
 			args = append(args, c.evArgs())
@@ -610,18 +822,42 @@ func (c *glCtx) methodCall(o *glOut, call *ast.CallExpr, resultVar string) bool 
 
 func (c *glCtx) declare(o *glOut, name, typ, val string) {
 	leanT := map[string]string{tInt: "Int", tU8: "Int", tBool: "Bool", tKey: "Key", tEvent: "Out", tAction: "Action",
-		tPair: "Nat × Nat", tExt: "List (Nat × Nat)", tCode: "Code", tSub: "Sub", tString: "Code × Bool", tMode: "Collision"}[typ]
+		tPair: "Nat × Nat", tExt: "List (Nat × Nat)", tCode: "Code", tSub: "Sub", tString: "Code × Bool", tMode: "Collision",
+		tFloat: "Rat", tAnalog: "Analog", tAbsInfo: "Int × Int"}[typ]
 	if leanT == "" {
 		glfail("local of type %s", typ)
 	}
 	if name == "_" {
 		return
 	}
-	if _, dup := c.locals[name]; dup {
-		glfail("redeclared local %s", name)
+	cur := c.scopes[len(c.scopes)-1]
+	if cur[name] {
+		// `a, ok := …` with `ok` already declared in this block assigns to it
+		if c.locals[name] != typ {
+			glfail("redeclaration of %s with another type", name)
+		}
+		o.line("%s := %s", c.lname(name), val)
+		return
 	}
+	lean := name
+	if _, shadow := c.locals[name]; shadow {
+		c.tmp++
+		lean = fmt.Sprintf("%s_%d", name, c.tmp)
+	}
+	cur[name] = true
 	c.locals[name] = typ
-	o.line("let mut %s : %s := %s", name, leanT, val)
+	c.rename[name] = lean
+	if len(c.scopes) == 1 {
+		c.order = append(c.order, name)
+	}
+	o.line("let mut %s : %s := %s", lean, leanT, val)
+}
+
+func (c *glCtx) lname(goName string) string {
+	if l, ok := c.rename[goName]; ok {
+		return l
+	}
+	return goName
 }
 
 // stmt returns whether something was emitted
@@ -668,8 +904,15 @@ func (c *glCtx) stmt1(o *glOut, s ast.Stmt, sw int) bool {
 		if len(vs.Names) != 1 || len(vs.Values) != 0 {
 			glfail("var declaration with values")
 		}
-		if types.ExprString(vs.Type) == "midi.Event" {
+		switch types.ExprString(vs.Type) {
+		case "midi.Event":
 			c.declare(o, vs.Names[0].Name, tEvent, "default")
+			return true
+		case "float64":
+			c.declare(o, vs.Names[0].Name, tFloat, "0")
+			return true
+		case "bool":
+			c.declare(o, vs.Names[0].Name, tBool, "false")
 			return true
 		}
 		glfail("var of type %s", types.ExprString(vs.Type))
@@ -682,6 +925,10 @@ func (c *glCtx) stmt1(o *glOut, s ast.Stmt, sw int) bool {
 			return true
 		}
 		if sel, ok := call.Fun.(*ast.SelectorExpr); ok {
+			// logging is dropped
+			if id, ok := sel.X.(*ast.Ident); ok && id.Name == "log" {
+				return false
+			}
 			// mutex calls are dropped
 			if (sel.Sel.Name == "Lock" || sel.Sel.Name == "Unlock") && (isSel(sel.X, "d", "externalTrackerMutex") || isSel(sel.X, "d", "eventProcessMutex")) {
 				return false
@@ -737,6 +984,12 @@ func (c *glCtx) stmt1(o *glOut, s ast.Stmt, sw int) bool {
 						glfail("keyTracker key %s", t)
 					}
 					o.line("d := d.setKeyTr (serase %s d.keyTr)", k)
+					return true
+				}
+				if ix, ok := call.Args[0].(*ast.IndexExpr); ok && isSel(ix.X, "d", "externalNoteTracker") {
+					ch := c.asU8(ix.Index)
+					n := c.asU8(call.Args[1])
+					o.line("d := d.setExt (serase ((%s).toNat, (%s).toNat) d.ext)", ch, n)
 					return true
 				}
 				if isSel(call.Args[0], "d", "actionTracker") {
@@ -1044,6 +1297,39 @@ func (c *glCtx) forStmt(o *glOut, x *ast.ForStmt) {
 
 // for _, key := range d.config.ExitSequence { if _, ok := d.keyTracker[key]; !ok { return false } }
 func (c *glCtx) rangeStmt(o *glOut, x *ast.RangeStmt) {
+	if (isSel(x.X, "d", "noteTracker") || isSel(x.X, "d", "analogNoteTracker")) && x.Tok == token.DEFINE && x.Value == nil {
+		// for k := range d.tracker { … } : a fold over the keys present when the loop starts.  Go visits every entry that
+		// is not deleted before it is reached, in unspecified order; the bodies supported here delete only the entry
+		// they are visiting, so every key is visited once (the order is the model's list order; C01_cleanup_any_order
+		// covers the others).
+		k, ok := x.Key.(*ast.Ident)
+		if !ok {
+			glfail("range key")
+		}
+		ast.Inspect(x.Body, func(n ast.Node) bool {
+			switch n.(type) {
+			case *ast.ReturnStmt, *ast.BranchStmt:
+				glfail("control transfer inside a range loop")
+			}
+			return true
+		})
+		field, typ, lt := "noteTr", tCode, "Code"
+		if isSel(x.X, "d", "analogNoteTracker") {
+			field, typ, lt = "anaTr", tString, "Code × Bool"
+		}
+		if _, dup := c.locals[k.Name]; dup {
+			glfail("range variable shadows %s", k.Name)
+		}
+		c.locals[k.Name] = typ
+		o.line("d := (akeys d.%s).foldl (fun (d : GSt) (%s : %s) => Id.run do", field, k.Name, lt)
+		o.indent++
+		o.line("let mut d := d")
+		c.block(o, x.Body.List, 0)
+		o.line("return d) d")
+		o.indent--
+		delete(c.locals, k.Name)
+		return
+	}
 	if !isSel(x.X, "d", "config", "ExitSequence") || x.Tok != token.DEFINE {
 		glfail("range over %s", types.ExprString(x.X))
 	}
@@ -1124,7 +1410,7 @@ func (c *glCtx) setLocal(o *glOut, define bool, name, typ, val string) {
 	if t != typ && typ != tUntyped {
 		glfail("assignment of %s to %s of type %s", typ, name, t)
 	}
-	o.line("%s := %s", name, val)
+	o.line("%s := %s", c.lname(name), val)
 }
 
 func (c *glCtx) assign(o *glOut, x *ast.AssignStmt) bool {
@@ -1146,6 +1432,49 @@ func (c *glCtx) assign(o *glOut, x *ast.AssignStmt) bool {
 		ix, ok := x.Rhs[0].(*ast.IndexExpr)
 		if !ok {
 			glfail("two-value assignment")
+		}
+		// d.config.KeyMappings[i].DefaultDeadzone[sub]
+		if sel, ok := ix.X.(*ast.SelectorExpr); ok && sel.Sel.Name == "DefaultDeadzone" {
+			if km, ok := sel.X.(*ast.IndexExpr); ok && isSel(km.X, "d", "config", "KeyMappings") {
+				mi, t := c.expr(km.Index)
+				sub, t1 := c.expr(ix.Index)
+				if t != tInt || t1 != tSub {
+					glfail("DefaultDeadzone index types %s %s", t, t1)
+				}
+				o.line("if !(d.mapIndexOk %s) then return %s", mi, c.panicValue())
+				c.tmp++
+				o.line("let r%d := d.defDzLookup %s %s", c.tmp, mi, sub)
+				c.setLocal(o, define, v, tFloat, fmt.Sprintf("r%d.1", c.tmp))
+				c.setLocal(o, define, okv, tBool, fmt.Sprintf("r%d.2", c.tmp))
+				return true
+			}
+		}
+		// d.config.KeyMappings[i].Analog[sub][code] / .Deadzones[sub][code]
+		if in, ok := ix.X.(*ast.IndexExpr); ok {
+			if sel, ok := in.X.(*ast.SelectorExpr); ok && (sel.Sel.Name == "Analog" || sel.Sel.Name == "Deadzones") {
+				if km, ok := sel.X.(*ast.IndexExpr); ok && isSel(km.X, "d", "config", "KeyMappings") {
+					mi, t := c.expr(km.Index)
+					if t != tInt {
+						glfail("KeyMappings index of type %s", t)
+					}
+					sub, t1 := c.expr(in.Index)
+					code, t2 := c.expr(ix.Index)
+					if t1 != tSub || t2 != tCode {
+						glfail("%s index types %s %s", sel.Sel.Name, t1, t2)
+					}
+					o.line("if !(d.mapIndexOk %s) then return %s", mi, c.panicValue())
+					c.tmp++
+					if sel.Sel.Name == "Analog" {
+						o.line("let r%d := d.analogLookup %s %s %s", c.tmp, mi, sub, code)
+						c.setLocal(o, define, v, tAnalog, fmt.Sprintf("r%d.1", c.tmp))
+					} else {
+						o.line("let r%d := d.dzLookup %s %s %s", c.tmp, mi, sub, code)
+						c.setLocal(o, define, v, tFloat, fmt.Sprintf("r%d.1", c.tmp))
+					}
+					c.setLocal(o, define, okv, tBool, fmt.Sprintf("r%d.2", c.tmp))
+					return true
+				}
+			}
 		}
 		// d.config.KeyMappings[d.mapping].Midi[sub][code]
 		if in, ok := ix.X.(*ast.IndexExpr); ok {
@@ -1250,7 +1579,11 @@ func (c *glCtx) assign(o *glOut, x *ast.AssignStmt) bool {
 		}
 		s, t := c.expr(x.Rhs[0])
 		if t == tUntyped {
-			t = tInt
+			if !define && c.locals[l.Name] == tFloat {
+				s, t = "("+s+" : Rat)", tFloat
+			} else {
+				t = tInt
+			}
 		}
 		c.setLocal(o, define, l.Name, t, s)
 		return true
@@ -1322,13 +1655,38 @@ func (c *glCtx) assign(o *glOut, x *ast.AssignStmt) bool {
 			o.line("d := d.setActTr (sinsert %s d.actTr)", k)
 			return true
 		}
+		if isSel(l.X, "d", "ccZeroed") {
+			v := types.ExprString(x.Rhs[0])
+			if v != "true" && v != "false" {
+				glfail("ccZeroed value")
+			}
+			o.line("d := d.setZeroedG (%s) %s", c.asU8(l.Index), v)
+			return true
+		}
+		if in, ok := l.X.(*ast.IndexExpr); ok && isSel(in.X, "d", "lastAnalogValue") {
+			sub, t1 := c.expr(in.Index)
+			code, t2 := c.expr(l.Index)
+			v, t3 := c.expr(x.Rhs[0])
+			if t1 != tSub || t2 != tCode || t3 != tFloat {
+				glfail("lastAnalogValue assignment types")
+			}
+			o.line("d := d.setLastAna %s %s %s", sub, code, v)
+			return true
+		}
+		if in, ok := l.X.(*ast.IndexExpr); ok && isSel(in.X, "d", "externalNoteTracker") {
+			if types.ExprString(x.Rhs[0]) != "true" {
+				glfail("externalNoteTracker value")
+			}
+			o.line("d := d.setExt (sinsert ((%s).toNat, (%s).toNat) d.ext)", c.asU8(in.Index), c.asU8(l.Index))
+			return true
+		}
 		// inmap[i] = make(map[byte]bool)
 		if id, ok := l.X.(*ast.Ident); ok && c.locals[id.Name] == tExt {
 			if types.ExprString(x.Rhs[0]) != "make(map[byte]bool)" {
 				glfail("ext map value")
 			}
 			k := c.asU8(l.Index)
-			o.line("%s := extClearCh %s %s", id.Name, id.Name, k)
+			o.line("%s := extClearCh %s %s", c.lname(id.Name), c.lname(id.Name), k)
 			return true
 		}
 	}
@@ -1376,7 +1734,7 @@ func genBodies() {
 		{dev, "MappingDown"}, {dev, "MappingUp"}, {dev, "MappingReset"}, {dev, "ChannelDown"}, {dev, "ChannelUp"}, {dev, "ChannelReset"},
 		{dev, "CCLearningOn"}, {dev, "CCLearningOff"}, {dev, "Panic"}, {dev, "checkDoubleActions"},
 		{dev, "NoteOn"}, {dev, "NoteOff"}, {dev, "AnalogNoteOn"}, {dev, "AnalogNoteOff"},
-		{evs, "checkExitSequence"}, {evs, "handleKEYEvent"},
+		{evs, "checkExitSequence"}, {evs, "handleKEYEvent"}, {evs, "handleABSEvent"}, {evs, "processEvent"},
 	}
 	emit("/- GENERATED by /verif/tools/extract (golite.go) from internal/pkg/midi/device/{device,events}.go on every run.\n")
 	emit("   Each definition is the translation of the Go method of the same name.  Do not edit. -/\n")
@@ -1404,6 +1762,20 @@ func genBodies() {
 		}
 		emit("%s\n", text)
 		okNames = append(okNames, it.name)
+	}
+	if txt, err := c.translateCleanup(evs); err != "" {
+		emit("-- ProcessEvents (clean-up): not translated: %s\n\n", strings.ReplaceAll(err, "\n", " "))
+		failed = append(failed, "ProcessEvents.cleanup")
+	} else {
+		emit("%s\n", txt)
+		okNames = append(okNames, "ProcessEvents.cleanup")
+	}
+	if txt, err := c.translateMidiIn(evs); err != "" {
+		emit("-- handleInputEvents: not translated: %s\n\n", strings.ReplaceAll(err, "\n", " "))
+		failed = append(failed, "handleInputEvents")
+	} else {
+		emit("%s\n", txt)
+		okNames = append(okNames, "handleInputEvents")
 	}
 	var q []string
 	for _, n := range okNames {
@@ -1435,6 +1807,9 @@ func (c *glCtx) translate(fd *ast.FuncDecl) (text string, err string) {
 	f := &glFunc{name: fd.Name.Name, lean: glLeanName(fd.Name.Name)}
 	c.cur = f
 	c.locals = map[string]string{}
+	c.rename = map[string]string{}
+	c.scopes = []map[string]bool{{}}
+	c.order = nil
 	c.tmp = 0
 	c.pre = nil
 	c.brk = nil
@@ -1451,7 +1826,7 @@ func (c *glCtx) translate(fd *ast.FuncDecl) (text string, err string) {
 				f.evParam = nm.Name
 				f.params = append(f.params, nm.Name)
 				f.ptypes = append(f.ptypes, "ev")
-				sig = append(sig, "(ev_sub : Sub) (ev_code : Code) (ev_value : Int) (ev_type : Int)")
+				sig = append(sig, "(ev_sub : Sub) (ev_node : String) (ev_code : Code) (ev_value : Int) (ev_type : Int)")
 			case "byte", "uint8":
 				f.params = append(f.params, nm.Name)
 				f.ptypes = append(f.ptypes, tU8)
@@ -1473,6 +1848,17 @@ func (c *glCtx) translate(fd *ast.FuncDecl) (text string, err string) {
 		}
 		f.ret = tBool
 	}
+	retT := "GSt"
+	if f.ret == tBool {
+		retT = "GSt × Bool"
+	}
+	sg := ""
+	if len(sig) > 0 {
+		sg = " " + strings.Join(sig, " ")
+	}
+	if glSegmented[f.name] {
+		return c.translateSegmented(fd, f, sg, retT), ""
+	}
 	o := &glOut{indent: 1}
 	o.line("let mut d := d0")
 	for i, p := range f.params {
@@ -1493,16 +1879,103 @@ func (c *glCtx) translate(fd *ast.FuncDecl) (text string, err string) {
 			glfail("missing final return")
 		}
 	}
-	retT := "GSt"
-	if f.ret == tBool {
-		retT = "GSt × Bool"
-	}
-	s := ""
-	if len(sig) > 0 {
-		s = " " + strings.Join(sig, " ")
-	}
 	c.funcs[f.name] = f
-	return fmt.Sprintf("def %s (d0 : GSt)%s : %s := Id.run do\n%s", f.lean, s, retT, o.b.String()), ""
+	return fmt.Sprintf("def %s (d0 : GSt)%s : %s := Id.run do\n%s", f.lean, sg, retT, o.b.String()), ""
+}
+
+// long methods are emitted as a chain of segments, one Lean definition each: a segment ends after every top-level
+// compound statement (if / switch); it receives the state and the locals declared so far and tail-calls the next one.
+// This keeps the terms the tie proofs work on small (no exponentially shared join points).
+var glSegmented = map[string]bool{"handleABSEvent": true}
+
+func (c *glCtx) leanType(typ string) string {
+	t := map[string]string{tInt: "Int", tU8: "Int", tBool: "Bool", tKey: "Key", tEvent: "Out", tAction: "Action",
+		tPair: "Nat × Nat", tExt: "List (Nat × Nat)", tCode: "Code", tSub: "Sub", tString: "Code × Bool", tMode: "Collision",
+		tFloat: "Rat", tAnalog: "Analog", tAbsInfo: "Int × Int"}[typ]
+	if t == "" {
+		glfail("local of type %s", typ)
+	}
+	return t
+}
+
+func (c *glCtx) translateSegmented(fd *ast.FuncDecl, f *glFunc, sg, retT string) string {
+	if f.ret != "" {
+		glfail("segmented function with a result")
+	}
+	for _, t := range f.ptypes {
+		if t != "ev" {
+			glfail("segmented function with parameters")
+		}
+	}
+	evArgs := ""
+	if f.evParam != "" {
+		evArgs = " " + c.evArgs()
+	}
+	type seg struct {
+		params []string // Go names of the locals at the start
+		body   string
+	}
+	var segs []seg
+	cur := &glOut{indent: 1}
+	start := append([]string(nil), c.order...)
+	emitted := false
+	closeSeg := func() {
+		segs = append(segs, seg{start, cur.b.String()})
+		cur = &glOut{indent: 1}
+		start = append([]string(nil), c.order...)
+		emitted = false
+	}
+	for i, st := range fd.Body.List {
+		if c.stmt(cur, st, 0) {
+			emitted = true
+		}
+		compound := false
+		switch x := st.(type) {
+		case *ast.IfStmt:
+			compound = !isLogOnlyIf(x)
+		case *ast.SwitchStmt:
+			compound = true
+		}
+		if compound && i != len(fd.Body.List)-1 {
+			closeSeg()
+		}
+	}
+	_ = emitted
+	segs = append(segs, seg{start, cur.b.String()})
+	endLocals := append([]string(nil), c.order...)
+	var b strings.Builder
+	for k := len(segs) - 1; k >= 0; k-- {
+		var ps []string
+		var decl strings.Builder
+		for _, n := range segs[k].params {
+			ps = append(ps, fmt.Sprintf("(%s_0 : %s)", c.lname(n), c.leanType(c.locals[n])))
+			fmt.Fprintf(&decl, "  let mut %s : %s := %s_0\n", c.lname(n), c.leanType(c.locals[n]), c.lname(n))
+		}
+		p := ""
+		if len(ps) > 0 {
+			p = " " + strings.Join(ps, " ")
+		}
+		var tail string
+		if k == len(segs)-1 {
+			tail = "  return d\n"
+		} else {
+			var as []string
+			for _, n := range segs[k+1].params {
+				as = append(as, c.lname(n))
+			}
+			a := ""
+			if len(as) > 0 {
+				a = " " + strings.Join(as, " ")
+			}
+			tail = fmt.Sprintf("  return %s_s%d d%s%s\n", f.lean, k+1, evArgs, a)
+		}
+		fmt.Fprintf(&b, "def %s_s%d (d0 : GSt)%s%s : %s := Id.run do\n  let mut d := d0\n%s%s%s\n", f.lean, k, sg, p, retT,
+			decl.String(), segs[k].body, tail)
+	}
+	_ = endLocals
+	fmt.Fprintf(&b, "def %s (d0 : GSt)%s : %s := %s_s0 d0%s\n", f.lean, sg, retT, f.lean, evArgs)
+	c.funcs[f.name] = f
+	return b.String()
 }
 
 // dispatch translates the table `name := map[config.Action]func(*Device){ config.X: (*Device).Method, … }` of NewDevice
@@ -1576,3 +2049,208 @@ func glLeanName(goName string) string {
 }
 
 func glSetter(field string) string { return "set" + strings.ToUpper(field[:1]) + field[1:] }
+
+// translateMidiIn: the body of `case ev := <-d.midiIn:` in the select loop of handleInputEvents, as a function of the
+// three bytes of the message
+func (c *glCtx) translateMidiIn(evs *ast.File) (text string, err string) {
+	defer func() {
+		if r := recover(); r != nil {
+			if f, ok := r.(glFail); ok {
+				err = f.msg
+				return
+			}
+			panic(r)
+		}
+	}()
+	fd := findFunc(evs, "handleInputEvents")
+	if fd == nil {
+		glfail("not found")
+	}
+	var clause *ast.CommClause
+	var loops, selects int
+	ast.Inspect(fd.Body, func(n ast.Node) bool {
+		switch x := n.(type) {
+		case *ast.ForStmt:
+			loops++
+		case *ast.SelectStmt:
+			selects++
+		case *ast.CommClause:
+			if as, ok := x.Comm.(*ast.AssignStmt); ok && len(as.Lhs) == 1 && len(as.Rhs) == 1 {
+				if u, ok := as.Rhs[0].(*ast.UnaryExpr); ok && u.Op == token.ARROW && isSel(u.X, "d", "midiIn") {
+					if clause != nil {
+						glfail("two receive clauses on midiIn")
+					}
+					clause = x
+				}
+			}
+		}
+		return true
+	})
+	if clause == nil || loops != 1 || selects != 1 {
+		glfail("shape: %d loops, %d selects, receive clause found: %v", loops, selects, clause != nil)
+	}
+	ev := clause.Comm.(*ast.AssignStmt).Lhs[0].(*ast.Ident).Name
+	f := &glFunc{name: "handleInputEvents", lean: "midiInBody"}
+	c.cur = f
+	c.locals = map[string]string{ev: tMidiEv}
+	c.rename = map[string]string{}
+	c.scopes = []map[string]bool{{}}
+	c.tmp = 0
+	c.pre = nil
+	c.brk = nil
+	c.brkUsed = map[string]bool{}
+	o := &glOut{indent: 1}
+	o.line("let mut d := d0")
+	c.block(o, clause.Body, 0)
+	o.line("return d")
+	return fmt.Sprintf("def midiInBody (d0 : GSt) (%s_a %s_b %s_c : Int) : GSt := Id.run do\n%s", ev, ev, ev, o.b.String()), ""
+}
+
+// glFloatLit: a Go floating-point literal as the nearest binary64, on rationals: rnd53 (num / den)
+func glFloatLit(v string) string {
+	if strings.ContainsAny(v, "eExXpP_") {
+		glfail("float literal %s", v)
+	}
+	parts := strings.SplitN(v, ".", 2)
+	num := parts[0]
+	den := "1"
+	if len(parts) == 2 {
+		num += parts[1]
+		den += strings.Repeat("0", len(parts[1]))
+	}
+	num = strings.TrimLeft(num, "0")
+	if num == "" {
+		num = "0"
+	}
+	return "(rnd53 ((" + num + " : Rat) / " + den + "))"
+}
+
+// eventLiteral: &input.InputEvent{Source: input.Handler{Name: …}, Event: evdev.InputEvent{Type: …, Code: …, Value: …}}
+// as the five event arguments (missing fields are zero values)
+func (c *glCtx) eventLiteral(cl *ast.CompositeLit) string {
+	sub, code, value, typ := `("" : Sub)`, "(0 : Code)", "(0 : Int)", "(0 : Int)"
+	for _, el := range cl.Elts {
+		kv, ok := el.(*ast.KeyValueExpr)
+		if !ok {
+			glfail("event literal")
+		}
+		inner, ok := kv.Value.(*ast.CompositeLit)
+		if !ok {
+			glfail("event literal field")
+		}
+		switch types.ExprString(kv.Key) {
+		case "Source":
+			for _, e2 := range inner.Elts {
+				kv2 := e2.(*ast.KeyValueExpr)
+				switch types.ExprString(kv2.Key) {
+				case "Name":
+					s, t := c.expr(kv2.Value)
+					if t != tSub {
+						glfail("event literal Name of type %s", t)
+					}
+					sub = s
+				case "DeviceInfo":
+					// only used for logging
+				default:
+					glfail("event literal Source.%s", types.ExprString(kv2.Key))
+				}
+			}
+		case "Event":
+			for _, e2 := range inner.Elts {
+				kv2 := e2.(*ast.KeyValueExpr)
+				switch types.ExprString(kv2.Key) {
+				case "Time":
+				case "Type":
+					s, _ := c.expr(kv2.Value)
+					typ = s
+				case "Code":
+					s, t := c.expr(kv2.Value)
+					if t != tCode {
+						glfail("event literal Code of type %s", t)
+					}
+					code = s
+				case "Value":
+					s, _ := c.expr(kv2.Value)
+					value = s
+				default:
+					glfail("event literal Event.%s", types.ExprString(kv2.Key))
+				}
+			}
+		default:
+			glfail("event literal field %s", types.ExprString(kv.Key))
+		}
+	}
+	return fmt.Sprintf("%s \"\" %s %s %s", sub, code, value, typ)
+}
+
+// translateCleanup: the statements of ProcessEvents between `d.eventProcessMutex.Lock()` and `.Unlock()` after the
+// event loop — the disconnect clean-up
+func (c *glCtx) translateCleanup(evs *ast.File) (text string, err string) {
+	defer func() {
+		if r := recover(); r != nil {
+			if f, ok := r.(glFail); ok {
+				err = f.msg
+				return
+			}
+			panic(r)
+		}
+	}()
+	fd := findFunc(evs, "ProcessEvents")
+	if fd == nil {
+		glfail("not found")
+	}
+	isMutex := func(s ast.Stmt, name string) bool {
+		es, ok := s.(*ast.ExprStmt)
+		if !ok {
+			return false
+		}
+		call, ok := es.X.(*ast.CallExpr)
+		if !ok {
+			return false
+		}
+		sel, ok := call.Fun.(*ast.SelectorExpr)
+		return ok && sel.Sel.Name == name && isSel(sel.X, "d", "eventProcessMutex")
+	}
+	// after the `for ie := range inputEvents` loop
+	start, lock, unlock := -1, -1, -1
+	for i, st := range fd.Body.List {
+		if rs, ok := st.(*ast.RangeStmt); ok && types.ExprString(rs.X) == "inputEvents" {
+			start = i
+		}
+		if start >= 0 && lock < 0 && isMutex(st, "Lock") {
+			lock = i
+		}
+		if lock >= 0 && unlock < 0 && isMutex(st, "Unlock") {
+			unlock = i
+		}
+	}
+	if start < 0 || lock < 0 || unlock < 0 {
+		glfail("shape: event loop %d, Lock %d, Unlock %d", start, lock, unlock)
+	}
+	// nothing but cancel() and logging between the loop and the lock
+	for _, st := range fd.Body.List[start+1 : lock] {
+		es, ok := st.(*ast.ExprStmt)
+		if !ok {
+			glfail("statement between the event loop and the clean-up")
+		}
+		txt := types.ExprString(es.X)
+		if txt != "cancel()" && !strings.HasPrefix(txt, "log.") {
+			glfail("statement between the event loop and the clean-up: %s", txt)
+		}
+	}
+	f := &glFunc{name: "ProcessEvents.cleanup", lean: "cleanupBody"}
+	c.cur = f
+	c.locals = map[string]string{}
+	c.rename = map[string]string{}
+	c.scopes = []map[string]bool{{}}
+	c.order = nil
+	c.tmp = 0
+	c.pre = nil
+	c.brk = nil
+	c.brkUsed = map[string]bool{}
+	o := &glOut{indent: 1}
+	o.line("let mut d := d0")
+	c.block(o, fd.Body.List[lock+1:unlock], 0)
+	o.line("return d")
+	return fmt.Sprintf("def cleanupBody (d0 : GSt) : GSt := Id.run do\n%s", o.b.String()), ""
+}
